@@ -122,9 +122,16 @@ Definition impl_formatted_bytes (x : N) : list N :=
   let '(enc, l) := impl_formatted Gen_C05.varint_rows x in
   firstn (N.to_nat l) (to_ne_bytes enc).
 
+(* VarInt::encode_updated(self = placeholder, replacement): Entry::read(placeholder).format(replacement)
+   written by encode_maybe_undersized - the replacement on the placeholder's length *)
+Definition impl_encode_updated (p r : N) : list N :=
+  let e := impl_read_optimized Gen_C05.varint_rows p in
+  firstn (N.to_nat (elen e)) (to_ne_bytes (N.lor (to_be (shl64 r (eshift e))) (two_bit_be e))).
+
 (* ---------------------------------------------------------------- harness protocol *)
 (* case = kind :: rest
    kind 0: decode the bytes [rest]           -> [1; value; bytes consumed] | [0]
+   kind 2: placeholder p, replacement r      -> [n] ++ bytes of encode_updated | [0] when r > p
    kind _: VarInt::new(v), v = head of rest  -> [1; encoding_size; n] ++ bytes (roomy buffer)
                                                 ++ [n'] ++ bytes (exact-size buffer)   | [0] *)
 Definition byte_of_z (z : Z) : N := zN z mod 256.
@@ -138,6 +145,11 @@ Definition run (case : list Z) : list Z :=
       | Some (v, r) => [1%Z; Nz v; Z.of_nat (length bs - length r)]
       | None => [0%Z]
       end
+  | 2%Z :: p :: r :: _ =>
+      (* encode_updated: the reference is the encoding of r on the length of p's shortest form *)
+      if (zN r <=? zN p) && (zN p <=? Gen_C05.max_varint_value) then
+        let e := vencode_n (vsize (zN p)) (zN r) in Z.of_nat (length e) :: map Nz e
+      else [0%Z]
   | _ :: rest =>
       let v := zN (hd 0%Z rest) in
       if v <=? Gen_C05.max_varint_value then
